@@ -1,11 +1,13 @@
 package main
 
 import (
+	"encoding/json"
 	"fmt"
 	"strconv"
 	"time"
 
 	"verif/harness/ev"
+	"verif/harness/explore"
 	"verif/harness/mon"
 	"verif/harness/sched"
 	"verif/harness/sim"
@@ -185,6 +187,44 @@ func init() {
 			Prop: "C13", Level: "model_checking", Budget: budget(bud), Phases: ph, Floor: 10,
 			AlsoProps: []string{"C10", "C02"},
 			Rule:      "every seed position p at which a catching-up node (an accepted joiner with fast-sync, before or after its effective round; a validator restarted empty) runs the real Node.fastForward against every serving peer, followed by the rest of the seed (optionally a second join or a leave after the reset) and the fair suffix. Oracle after every step: blocks delivered by the reset node from anchor+1 on equal the first delivery of that index by anybody (same digest as C01, incl. state hash from the restored snapshot) as long as the reset node reported no insertion error; its validator-set table evolves by the C10 replay from the table it adopted and agrees with full-history nodes for rounds >= the anchor round; frames of every processed round have equal hashes on all full-history nodes",
+			Pre: func(deadline time.Time) ([]ev.Violation, map[string]interface{}) {
+				srcs := []string{"named:funkystacked", "named:coinround", "named:outoforder", "harvest:" + scStatic3, "harvest:" + scStatic4, "harvest:" + scLaggards4, "harvest:" + scPart4,
+					"harvest:irregular:4:183:200:0", "harvest:irregular:4:802:200:0", "harvest:irregular:4:706:200:0", "harvest:slow:4:4:1:120", "harvest:slow:4:2:0:120"}
+				if th {
+					for k := 2; k <= 6; k++ {
+						for o := 0; o < 2; o++ {
+							srcs = append(srcs, fmt.Sprintf("harvest:slow:4:%d:%d:120", k, o))
+						}
+					}
+					for _, i := range []int{1036, 1142, 1, 2, 3, 4, 5, 6, 7, 8} {
+						srcs = append(srcs, fmt.Sprintf("harvest:irregular:4:%d:200:0", i))
+					}
+				}
+				raw := make([]json.RawMessage, len(srcs))
+				for i, s := range srcs {
+					raw[i], _ = json.Marshal(DagResetItem{Source: s})
+				}
+				pool := explore.Pool{Mode: "dagreset", Deadline: deadline}
+				tot := DagResetResult{}
+				var viol []ev.Violation
+				pool.Run(raw, func(r explore.PoolResult) {
+					if r.Crashed != "" || r.Err != "" {
+						ev.Fail("dag-reset item %s failed in the harness: %s%s", string(raw[r.Index]), r.Crashed, r.Err)
+					}
+					var res DagResetResult
+					json.Unmarshal(r.Res, &res)
+					attachItem(res.Viol, "dagreset", raw[r.Index])
+					tot.Dags += res.Dags
+					tot.Anchors += res.Anchors
+					tot.Compared += res.Compared
+					tot.Stalled += res.Stalled
+					tot.BlocksCompared += res.BlocksCompared
+					viol = append(viol, res.Viol...)
+				})
+				return viol, map[string]interface{}{"dag_reset": map[string]interface{}{"dags": tot.Dags, "anchors": tot.Anchors, "anchors_followed_to_the_end": tot.Compared,
+					"anchors_after_which_an_event_could_not_be_inserted": tot.Stalled, "blocks_compared": tot.BlocksCompared,
+					"rule": "static DAGs (hand-drawn ones with out-of-order and coin-round elections, final DAGs of regular, slow-validator and irregular runs) inserted one event at a time into a full-history hashgraph; for every block it delivered a fresh hashgraph is Reset to that block and frame (through the JSON encoding) and fed the remaining events in the same order; as long as it can insert them it must deliver from anchor+1 on exactly the full instance's blocks (index, round-received, transactions, frame hash, peers hash, timestamp)"}}
+			},
 			Extra: func(cov map[string]interface{}, agg *Agg) {
 				cov["fast_forwards_performed"] = agg.Counters["ff_done"]
 				cov["reset_nodes_stalled"] = agg.Counters["ff_stalled_nodes"]
